@@ -649,6 +649,8 @@ func drawReadCfg(t *simrt.Tape, dataLen int, allowTransport bool) readCfg {
 	c.FullFile = t.Choose(6) == 5
 	if c.Stage == 2 {
 		c.Codec = t.Choose(5)
+		// files, pipes and sockets never answer (0, nil); some decompressors do not accept it
+		c.ZeroReads = false
 	}
 	return c
 }
@@ -683,7 +685,11 @@ func runC01(rc *RunCtx) {
 	t := rc.Plan
 	var fc *fileCase
 	var cfg readCfg
-	mode := t.Choose(2)
+	mode := t.Choose(8) // 1: sweep corpus (enumerated part), 7: command stage, else generated file
+	if mode == 7 {
+		c01Command(rc, t)
+		return
+	}
 	if mode == 1 {
 		corpus := c01CorpusList(rc.Tier)
 		fc = corpus[t.Choose(len(corpus))]
@@ -906,7 +912,12 @@ func runC17(rc *RunCtx) {
 	var fc *fileCase
 	var codec, kind, k, bit int
 	var image []byte
-	if t.Choose(2) == 1 {
+	m17 := t.Choose(8) // 1: fixed images (enumerated part), 7: command stage, else generated file
+	if m17 == 7 {
+		c17Command(rc, t)
+		return
+	}
+	if m17 == 1 {
 		imgs := c17ImageList()
 		im := imgs[t.Choose(len(imgs))]
 		fc, codec, image = im.fc, im.codec, im.data
